@@ -47,6 +47,9 @@ type LoopContract struct {
 	Ord        int
 	Invariants []*Clause
 	Decreases  *Clause
+	Cases      *Clause // case split on a local variable's value at the loop head: cases <local> <lo> <hi>
+	CaseLo     int
+	CaseHi     int
 	header     *ssa.BasicBlock
 	body       map[*ssa.BasicBlock]bool
 	pos        token.Pos
@@ -86,7 +89,7 @@ func hasTag(tags []string, p string) bool {
 	return false
 }
 
-var clauseHead = regexp.MustCompile(`^(func|requires|ensures|invariant|decreases|loop|safety|modifies|recv|nocap|inline|trusted|lemma|fresh|allocates|unroll|rec|mathint)(\[[A-Za-z0-9,* ]*\])?(\s+|$)`)
+var clauseHead = regexp.MustCompile(`^(func|requires|ensures|invariant|decreases|cases|loop|safety|modifies|recv|nocap|inline|trusted|lemma|fresh|allocates|unroll|rec|mathint)(\[[A-Za-z0-9,* ]*\])?(\s+|$)`)
 
 // parseContractFile extracts the //@ blocks of one file.
 func parseContractComments(fset *token.FileSet, f *ast.File) ([]*Contract, error) {
@@ -134,7 +137,7 @@ func parseContractComments(fset *token.FileSet, f *ast.File) ([]*Contract, error
 				}
 				curLoop = n
 				last = nil
-			case "invariant", "decreases":
+			case "invariant", "decreases", "cases":
 				if curLoop == 0 {
 					return nil, fmt.Errorf("line %d: %s outside a loop", line, kw)
 				}
@@ -388,7 +391,7 @@ func (e *Engine) parseClause(ct *Contract, rc rawClause, pos token.Pos, withResu
 		params = append(params, b+" int")
 	}
 	retT := "bool"
-	if rc.kind == "decreases" || rc.kind == "allocates" {
+	if rc.kind == "decreases" || rc.kind == "allocates" || rc.kind == "cases" {
 		retT = "int"
 	}
 	src := "func(" + strings.Join(params, ", ") + ") " + retT + " { return " + goText + " }"
@@ -537,6 +540,18 @@ func (e *Engine) bindContract(ct *Contract) error {
 					cl.Label = fmt.Sprintf("inv%d", ni)
 				}
 				lc.Invariants = append(lc.Invariants, cl)
+			} else if rc.kind == "cases" {
+				f := strings.Fields(rc.text)
+				if len(f) != 3 {
+					return fmt.Errorf("contract %s: cases wants <local> <lo> <hi>", ct.Key)
+				}
+				cl, err := e.parseClause(ct, rawClause{kind: "cases", text: f[0], line: rc.line}, lc.pos, false, 1)
+				if err != nil {
+					return err
+				}
+				lc.Cases = cl
+				fmt.Sscanf(f[1], "%d", &lc.CaseLo)
+				fmt.Sscanf(f[2], "%d", &lc.CaseHi)
 			} else {
 				cl, err := e.parseClause(ct, rc, lc.pos, false, 1)
 				if err != nil {
